@@ -16,7 +16,7 @@ from ..replay import Divergence
 
 SPEC_DIR = env.SPECS + "/proto"
 Q = 0.5            # seconds per quantum
-INVS = ["SettingsResolved", "RedoWhenDue", "FailsAtTimeout", "ZeroNeverExpires", "FailedIsDone"]
+INVS = ["SettingsResolved", "LatestIsLast", "RedoWhenDue", "FailsAtTimeout", "ZeroNeverExpires", "FailedIsDone"]
 APROPS = ["NoEarlyRedo", "OncePerPoll", "FailsOnlyAtTimeout"]
 
 
@@ -111,6 +111,12 @@ class ExchangeAdapter:
             self.started = True
             x.start(args[0])
             return "start"
+        if name == "Send":
+            x.send(args[0])
+            return "send"
+        if name == "Transmit":
+            x.transmit(args[0])
+            return "transmit"
         if name == "Process":
             n, failed = len(self.stack.log), x.failed
             x.process()
@@ -180,11 +186,12 @@ def _random_trace(rng, deft, defr, nsteps):
 
     def log(name, extra, res):
         p = ad.project()
-        e = {"ev": name, "done": p["done"], "failed": p["failed"], "sent": p["sent"], "last": p["last"], "res": res}
+        e = {"ev": name, "tx": p["tx"], "done": p["done"], "failed": p["failed"], "sent": p["sent"], "last": p["last"], "res": res}
         e.update(extra)
         evs.append(e)
 
     running = False
+    fresh = False       # no time passed since the current redo interval began (start or retransmission)
     op = "?"
     try:
         for _ in range(nsteps):
@@ -200,15 +207,26 @@ def _random_trace(rng, deft, defr, nsteps):
                     m += 1
                     log(op, {"m": m}, ad.call(op, (m,)))
                     running = True
+                    fresh = True
+                continue
+            if fresh and rng.random() < 0.35:
+                # a further message of the running exchange, through send() or directly through transmit()
+                op = rng.choice(["Send", "Transmit"])
+                m += 1
+                log(op, {"m": m}, ad.call(op, (m,)))
                 continue
             if c < 0.45:
                 op = "Advance"
                 dt = rng.choice([1, 1, 1, 2, 2, 3, 5, 7])
                 ad.call(op, (dt,))
                 evs.append({"ev": op, "dt": dt})
+                fresh = False
             elif c < 0.95:
                 op = "Process"
-                log(op, {}, ad.call(op, ()))
+                r = ad.call(op, ())
+                log(op, {}, r)
+                if r == "redo":
+                    fresh = True
             else:
                 op = "Finish"
                 log(op, {}, ad.call(op, ()))
@@ -226,33 +244,37 @@ def run_c38(ctx):
                 "ExchangeTrace.tla; distinct = graph edges + accepted traces")
     ctx.assume("time quantum 0.5 s, so every stamp and duration is an exact float; retransmissions made while redo = 0 are "
                "not counted (documentation silent); TLC, the value parser, the stub stack and the projection are trusted")
-    settings = ctx.pick([0, 1, 2, 3], [0, 1, 2, 3, 4, 5])
-    maxtime = ctx.pick(7, 12)
+    settings = ctx.pick([0, 1, 2, 3], [0, 1, 2, 3, 4])
+    maxtime = ctx.pick(6, 12)
     steps = ctx.pick([1, 2], [1, 2, 3])
     maxstarts = ctx.pick(2, 3)
     defaults = [(4, 1), (3, 2)]         # stock Exchanger (2.0 s, 0.5 s) and a subclass overriding both
+    # (clock bound, starts) per defaults: restarts are explored more deeply under the stock defaults
+    bounds = {defaults[0]: ctx.pick((6, 2), (9, 3)), defaults[1]: ctx.pick((6, 1), (10, 2))}
     total = cov = 0
     def model(d):
         dot = env.subdir("c38") + "/def%d_%d.dot" % d
-        return dot, tlc.run("Exchange", cfg_text(settings, d[0], d[1], maxtime, maxstarts, steps), spec_dir=SPEC_DIR, dump_dot=dot,
+        return dot, tlc.run("Exchange", cfg_text(settings, d[0], d[1], bounds[d][0], bounds[d][1], steps), spec_dir=SPEC_DIR, dump_dot=dot,
                             deadlock=False, tag="c38def%d_%d" % d, workers=max(1, env.NCPU // 2))
 
     with ThreadPoolExecutor(max_workers=2) as ex:
         ran = list(ex.map(model, defaults))
     for (deft, defr), (dot, res) in zip(defaults, ran):
         label = "def%d_%d" % (deft, defr)
-        ctx.add_model(res, "Exchange/" + label, {"Settings": settings, "DefTimeout": deft, "DefRedo": defr, "MaxTime": maxtime,
-                                                 "MaxStarts": maxstarts, "Steps": steps})
+        ctx.add_model(res, "Exchange/" + label, {"Settings": settings, "DefTimeout": deft, "DefRedo": defr, "MaxTime": bounds[(deft, defr)][0],
+                                                 "MaxStarts": bounds[(deft, defr)][1], "Steps": steps})
         if not res.ok:
             ctx.diverge(Divergence("C38", "model", res.error_name or res.error, "Exchange/" + label,
                                    "specification property violated in the model",
                                    steps=[{"action": a, "state": s} for a, s in res.trace]))
             continue
-        tlc.require_coverage(res, ["Advance", "Start", "Process", "Finish"], "Exchange/" + label)
+        tlc.require_coverage(res, ["Advance", "Start", "Send", "Transmit", "Process", "Finish"], "Exchange/" + label)
         g = graph.load_dot(dot)
         outcomes = {s["res"] for s in g.states.values()}
-        if not {"idle", "redo", "fail", "finish", "start"} <= outcomes:
+        if not {"idle", "redo", "fail", "finish", "start", "send", "transmit"} <= outcomes:
             raise tlc.TlcError("vacuous graph %s: outcomes %s" % (label, sorted(outcomes)))
+        if not any(s["res"] == "redo" and s["last"] % 10 == 2 for s in g.states.values()):
+            raise tlc.TlcError("vacuous graph %s: no retransmission of a directly transmitted message" % label)
         if not any(s["res"] == "fail" and s["sent"] > 1 for s in g.states.values()):
             raise tlc.TlcError("vacuous graph %s: no failure after a retransmission" % label)
         if (deft, defr) == defaults[0]:
@@ -301,7 +323,7 @@ def run_c38(ctx):
         for (i, err, name, tr) in out.model_errors[:5]:
             ctx.diverge(Divergence("C38", "rejected", name or err, "trace-invariant",
                                    "invariant %s violated on a recorded history" % name, steps=trs[i]))
-    if acc and not ctx.divs and not {"idle", "redo", "fail", "finish", "start"} <= set(seen):
+    if acc and not ctx.divs and not {"idle", "redo", "fail", "finish", "start", "send", "transmit"} <= set(seen):
         raise tlc.TlcError("vacuous random histories: outcomes %s" % sorted(seen))
     ctx.exhaustive = (cov == total and total > 0)
     ctx.extra.update({"graph_edges": total, "edges_replayed": cov, "random_traces": ntr, "random_traces_accepted": acc,
